@@ -346,7 +346,7 @@ class Replayer:
         elif k == "transform":
             d = a["arg"]
             res = self.call("C04" if d == m["data"] else "C05", "Transform", f"transform({d})",
-                            lambda: fam.transform(self.model, w.ds[d]))
+                            lambda: fam.transform(self.model, w.ds[d], wrap=bool(a.get("wrapped"))))
             self.check_transform(res, a, m, self.model, rot=False)
         elif k == "transformRefused":
             try:
